@@ -47,6 +47,11 @@ type trigger struct {
 	Hold bool `json:"own_registration_events_held_until_update_done,omitempty"`
 	// SubOld: the adversary registers its newest parent state with the oldest sub-channel state.
 	SubOld bool `json:"newest_parent_with_oldest_sub_channel_state,omitempty"`
+	// CloseSub: before the adversary moves, the honest party closes its controller of the open
+	// sub-channel (which de-registers it from the watcher; the ledger channel stays watched and the
+	// watcher keeps the sub-channel's last state for refutations). Only the registration verdict
+	// is taken: without the controller the honest party cannot settle the sub-channel itself.
+	CloseSub bool `json:"honest_party_closed_its_sub_channel_controller,omitempty"`
 }
 
 type witness struct {
@@ -108,6 +113,7 @@ func runAll(s sink.Sink, cfg props.Cfg, n int, stream string, workers int) {
 // returns the number of executions.
 func scenario(s sink.Sink, rng *rand.Rand, sample bool) int {
 	sc := scen.Generate(rng)
+	sc.NoWatch = [2]bool{} // the honest party watches (the statement's premise); B's watcher is switched off below
 	if rng.Intn(2) == 0 && len(sc.Steps) > 4 {
 		sc.Steps = sc.Steps[:1+rng.Intn(4)]
 		if sc.Sub != nil && sc.Sub.After > len(sc.Steps) {
@@ -135,6 +141,10 @@ func scenario(s sink.Sink, rng *rand.Rand, sample bool) int {
 		trigs = append(trigs, trigger{Kind: "between", Point: p, Step: -1})
 		if sc.Sub != nil && strings.HasPrefix(p, "after-sub-steps") {
 			trigs = append(trigs, trigger{Kind: "between", Point: p, Step: -1, SubOld: true})
+			trigs = append(trigs, trigger{Kind: "between", Point: p, Step: -1, CloseSub: true})
+		}
+		if sc.Sub != nil && !sc.Sub.Close && p == "after-steps" && sc.Sub.After < len(sc.Steps) {
+			trigs = append(trigs, trigger{Kind: "between", Point: p, Step: -1, CloseSub: true})
 		}
 	}
 	for i, st := range sc.Steps {
@@ -235,6 +245,14 @@ func execute(s sink.Sink, seed int64, sc scen.Scenario, tg trigger, sample bool)
 		fired = true
 		mu.Unlock()
 		id := r.Ch[0].ID()
+		if tg.CloseSub {
+			if r.SubCh[0] == nil {
+				hadVersion = false
+				return
+			}
+			_ = r.SubCh[0].Close()
+			r.W.Quiesce()
+		}
 		// B's fully signed transactions of the ledger channel, oldest first
 		var txs []recpr.Event
 		seen := map[uint64]bool{}
@@ -449,6 +467,32 @@ func execute(s sink.Sink, seed int64, sc scen.Scenario, tg trigger, sample bool)
 	}
 	// settlement: both settle (the clock advances when they wait); A's payout
 	phase = "settling"
+	if tg.CloseSub {
+		// registration verdict only (see trigger.CloseSub)
+		s.Case(desc, nontrivial)
+		if nontrivial {
+			s.Count("refutations_needed", 1)
+		}
+		s.Count("executions_with_closed_sub_channel_controller", 1)
+		if len(problems) > 0 {
+			var callStrs []string
+			for _, c := range r.W.Ledger.Calls() {
+				callStrs = append(callStrs, c.String())
+			}
+			kind := "stale-registration"
+			if strings.Contains(problems[0], "refused") {
+				kind = "refutation-refused"
+			} else if strings.Contains(problems[0], "sub-channel") {
+				kind = "stale-sub-channel-registration"
+			}
+			if class == "" {
+				class = "watcher-knew-newest-state"
+			}
+			s.Violation("C04/"+kind+"/"+class, problems[0], witness{Scenario: sc, Trigger: tg, Problems: problems, Log: r.Log, Ledger: callStrs})
+		}
+		r.TimedOut = true // abandon the world: the closed controller makes an orderly shutdown impossible
+		return true
+	}
 	r.Settle()
 	phase = "settled"
 	r.WaitIdle()
